@@ -24,7 +24,8 @@ MARKER_PARSE_THEOREMS = [
     "Src.process_python_str_eq_model", "Src._parse_marker_var_translated", "Src._parse_marker_var_agrees",
     "Src._parse_marker_op_translated", "Src._parse_marker_op_agrees", "Src._parse_marker_item_translated",
     "Src._parse_marker_item_agrees", "Src._parse_marker_atom_translated", "Src._parse_marker_translated",
-    "Src._parse_marker_agrees", "Src._parse_full_marker_translated", "Src.parse_marker_translated", "Src.parse_marker_eq_model"]
+    "Src._parse_marker_agrees", "Src._parse_full_marker_translated", "Src.parse_marker_translated", "Src.parse_marker_eq_model",
+    "Src._parse_marker_fuel_agrees", "Src.Fuel.parse_ne_fuel", "Src.parse_marker_eq_model'"]
 
 
 class C07(Prop):
